@@ -129,6 +129,16 @@ class Engine(object):
         self.seed_deleted = set()
         self.failed_flush_continued = False
         self.rec.tag('s%d' % self.session_no)
+        if getattr(self, 'strategy', None) == 'eager':
+            # loading strategy 'everything up front': every row and every collection is loaded (prefetch of all
+            # relationships) before the program's first operation of the session
+            core = self.core
+            for cls in self.cls.values():
+                if cls._root_ is not cls: continue
+                rels = [a for c in [cls] + list(cls._subclasses_) for a in c._new_attrs_ if a.reverse is not None]
+                try: list(cls.select().prefetch(*rels)) if rels else list(cls.select())
+                except Exception as e: self.c('eager_preload_raised.' + type(e).__name__)
+            self.c('eager_preloads')
 
     def _exit_session(self, abort=False):
         s, self.session = self.session, None
@@ -229,10 +239,18 @@ class Engine(object):
         pk = self.pony_pk_arg(oid)
         if any(v is None for v in pk): raise HarnessSkip('pk of oid %s unknown' % oid)
         er = self.rules.ents[o.ent]
-        via = via if via is not None else (oid * 7 + self.session_no * 3 + self.step_no) % 4
+        svr = getattr(self, 'seed_via_refs', False)
+        if via is None:
+            via = 4 if svr == 'always' else (oid * 7 + self.session_no * 3 + self.step_no) % (5 if svr else 4)
+        p = None
+        if via == 4:
+            # the object is first seen as an unloaded reference: through the to-one attribute of an object referring to it
+            p = self._via_referrer(oid)
+            if p is None: via = 0
         self.c('obtain.via%d' % via)
         try:
-            if via == 0: p = cls[tuple(pk)] if len(pk) > 1 else cls[pk[0]]
+            if p is not None: pass
+            elif via == 0: p = cls[tuple(pk)] if len(pk) > 1 else cls[pk[0]]
             elif via == 1: p = rootcls.get(**dict(zip(er.pk, pk)))
             elif via == 2:
                 l = list(rootcls.select(**dict(zip(er.pk, pk))))
@@ -252,13 +270,30 @@ class Engine(object):
         if p is None:
             self.report('read', 'missing_object', {'oid': oid, 'ent': o.ent, 'pk': [repr(x) for x in pk], 'via': via})
             raise HarnessSkip('object not found')
-        if self.force_load:
-            p.load()      # deviation-rule replay: no pk-only seeds among the handles
+        if self.force_load is True:
+            p.load()      # loading strategy 'every handle fully loaded before use' (no pk-only seeds among the handles)
         got = self.oid_of(p, 'obtain')
         if got != oid:
             self.report('read', 'wrong_object', {'oid': oid, 'got': got})
             raise HarnessSkip('wrong object')
         return p
+
+    def _via_referrer(self, oid):
+        for cand in sorted(self.working.objs):
+            if cand == oid: continue
+            o2 = self.working.objs[cand]
+            for n, a in self.rules.ents[o2.ent].attrs.items():
+                if a.kind != 'ref' or o2.vals.get(n) != oid: continue
+                try:
+                    ref = self.h.get(cand) or self.obj(cand, via=0)
+                    p = getattr(ref, n)
+                except HarnessSkip: continue
+                except Exception as e:
+                    self.c('obtain_via_referrer_raised.' + type(e).__name__); continue
+                if p is not None:
+                    self.c('obtain.seed_through_reference' if self._is_seed(p) else 'obtain.loaded_through_reference')
+                    return p
+        return None
 
     def to_pony(self, a, v):
         if a.kind == 'scalar': return v
